@@ -38,6 +38,9 @@ def gen(rng, index, tier):
     plan["rewriter"] = rng.choice(["noop", "default", "default", "config_dict"])
     plan["flag"] = rng.choice(["default", "ignore", "norewrite"])
     for ses in plan["sessions"]:
+        if rng.random() < 0.06:
+            # the session cannot even start cleanly: a Config hook other than the limit fails
+            ses["faults"] = dict(ses.get("faults") or {}, cfg_raises=rng.choice(["sample_rate", "code_filter"]))
         if rng.random() < 0.12:
             ses["outer_k"] = rng.choice([x for x in (0, 1, 2, 3, 10, 10) if x != ses["k"]])
     if rng.random() < 0.3:
@@ -171,6 +174,8 @@ def check(plan, r):
         probes["limit lowered between trace and stub time"] += 1
     if plan.get("k_decoy") is not None:
         probes["limit visible only inside Config.cli_context()"] += 1
+    if any((ses.get("faults") or {}).get("cfg_raises") for ses in plan["sessions"]):
+        probes["a Config hook raised while a session was starting"] += 1
     if any(ses.get("outer_k") is not None for ses in plan["sessions"]):
         probes["session nested inside a tracing block with another limit"] += 1
     return V, evaluated, probes, dict_values
